@@ -38,12 +38,12 @@ VARIABLES
   applied,  \* blocks executed against the app, in order
   pc,       \* "idle" | "saved"  (between SaveBlock and ApplyBlock)
   handed,   \* "no" | "ok" | "panic"   (SwitchToConsensus)
-  lies, joins, nstat,
+  lies, joins, nstat, nretry,
   blamed,   \* ghost: peers whose block took part in a failed verification and who have not re-joined since
   act
 
-vars == <<sw, pool, pending, errq, store, st, applied, pc, handed, lies, joins, nstat, blamed, act>>
-View == <<sw, pool, pending, errq, store, st, applied, pc, handed, lies, joins, nstat, blamed>>
+vars == <<sw, pool, pending, errq, store, st, applied, pc, handed, lies, joins, nstat, nretry, blamed, act>>
+View == <<sw, pool, pending, errq, store, st, applied, pc, handed, lies, joins, nstat, nretry, blamed>>
 
 Pows(h) == ValsAt[h]
 LastPows(h) == IF h <= 1 THEN << >> ELSE ValsAt[h - 1]
@@ -61,6 +61,7 @@ Init ==
   /\ lies = 0
   /\ joins = [p \in Peers |-> 0]
   /\ nstat = 0
+  /\ nretry = 0
   /\ blamed = {}
   /\ act = [name |-> "Init"]
 
@@ -74,7 +75,7 @@ Join(p) ==
   /\ joins' = [joins EXCEPT ![p] = @ + 1]
   /\ blamed' = blamed \ {p}
   /\ act' = [name |-> "Join", p |-> p]
-  /\ UNCHANGED <<pool, pending, errq, store, st, applied, pc, handed, lies, nstat>>
+  /\ UNCHANGED <<pool, pending, errq, store, st, applied, pc, handed, lies, nstat, nretry>>
 
 \* Receive(StatusResponse) -> pool.SetPeerRange
 Status(p, s) ==
@@ -83,7 +84,7 @@ Status(p, s) ==
   /\ pool' # pool
   /\ IF p \in Honest THEN nstat' = nstat ELSE nstat < MaxStatus /\ nstat' = nstat + 1
   /\ act' = [name |-> "Status", p |-> p, base |-> s.base, height |-> s.height]
-  /\ UNCHANGED <<sw, pending, errq, store, st, applied, pc, handed, lies, joins, blamed>>
+  /\ UNCHANGED <<sw, pending, errq, store, st, applied, pc, handed, lies, joins, nretry, blamed>>
 
 StatusOf(p) == IF p \in Honest THEN {[base |-> 1, height |-> T]} ELSE LiarStatus
 
@@ -110,7 +111,7 @@ Response(p, h, kind) ==
           /\ IF kind = "heightUp" THEN h + 1 <= T /\ Deliver(p, h, kind, CanonBlock(h + 1))
              ELSE IF kind = "heightDown" THEN h > 1 /\ Deliver(p, h, kind, CanonBlock(h - 1))
              ELSE h <= T + 1 /\ Deliver(p, h, kind, BlockOfKind(kind, h))
-  /\ UNCHANGED <<sw, store, st, applied, pc, handed, joins, nstat, blamed>>
+  /\ UNCHANGED <<sw, store, st, applied, pc, handed, joins, nstat, nretry, blamed>>
 
 ResponseKinds(p, h) ==
   IF p \in Honest THEN (IF h <= T THEN {"H"} ELSE {"none"})
@@ -124,14 +125,14 @@ Timeout(p) ==
   /\ pool' = [pool EXCEPT !.peers[p].to = TRUE]
   /\ errq' = errq \cup {p}
   /\ act' = [name |-> "Timeout", p |-> p]
-  /\ UNCHANGED <<sw, pending, store, st, applied, pc, handed, lies, joins, nstat, blamed>>
+  /\ UNCHANGED <<sw, pending, store, st, applied, pc, handed, lies, joins, nstat, nretry, blamed>>
 
 \* ------------------------------------------------------------------ node
 MakeReq ==
   /\ Running /\ CanMakeRequester(pool) /\ Cardinality(ReqHeights(pool)) < MaxReq
   /\ pool' = MakeRequester(pool)
   /\ act' = [name |-> "MakeRequester", h |-> pool.h + Cardinality(ReqHeights(pool))]
-  /\ UNCHANGED <<sw, pending, errq, store, st, applied, pc, handed, lies, joins, nstat, blamed>>
+  /\ UNCHANGED <<sw, pending, errq, store, st, applied, pc, handed, lies, joins, nstat, nretry, blamed>>
 
 \* requestRoutine: pick a peer and send the BlockRequest (any eligible peer: map order)
 Request(h, p) ==
@@ -139,7 +140,16 @@ Request(h, p) ==
   /\ pool' = Pick(pool, h, p)
   /\ pending' = IF p \in sw THEN pending \cup {[h |-> h, p |-> p]} ELSE pending
   /\ act' = [name |-> "Request", h |-> h, p |-> p]
-  /\ UNCHANGED <<sw, errq, store, st, applied, pc, handed, lies, joins, nstat, blamed>>
+  /\ UNCHANGED <<sw, errq, store, st, applied, pc, handed, lies, joins, nstat, nretry, blamed>>
+
+\* requestRoutine's retry timer (30 s): the requester gives up on its peer and asks again; the request stays
+\* in the old peer's inbox (pending), so its answer may arrive after another peer has been asked
+RetryTimer(h) ==
+  /\ Running /\ nretry < MaxRetry /\ CanRetry(pool, h)
+  /\ pool' = Retry(pool, h)
+  /\ nretry' = nretry + 1
+  /\ act' = [name |-> "Retry", h |-> h, p |-> pool.req[h].peer]
+  /\ UNCHANGED <<sw, pending, errq, store, st, applied, pc, handed, lies, joins, nstat, blamed>>
 
 \* Switch.StopPeerForError: peer.Stop, reactor.RemovePeer -> pool.RemovePeer, peer set
 StopEffect(poolIn, S) ==
@@ -152,7 +162,7 @@ ErrStop(p) ==
   /\ errq' = errq \ {p}
   /\ StopEffect(pool, {p})
   /\ act' = [name |-> "StopPeer", p |-> p, why |-> "error"]
-  /\ UNCHANGED <<store, st, applied, pc, handed, lies, joins, nstat, blamed>>
+  /\ UNCHANGED <<store, st, applied, pc, handed, lies, joins, nstat, nretry, blamed>>
 
 \* one didProcessCh iteration with both blocks present
 TrySync ==
@@ -171,11 +181,12 @@ TrySync ==
         ELSE /\ store' = IF Weak_SaveBeforeValidate /\ Len(store) < first.h THEN Append(store, entry) ELSE store
              /\ pc' = pc
              /\ act' = [name |-> "SyncFail", h |-> first.h, stopped |-> FailPeers(pool)]
-             /\ blamed' = blamed \cup FailPeers(pool)
+             \* owed a disconnect: the requesters' owners (whom the code punishes) and the peers that sent the blocks
+             /\ blamed' = blamed \cup FailPeers(pool) \cup PairSenders(pool)
              /\ errq' = errq
              /\ IF Weak_NoRedo THEN UNCHANGED <<sw, pool, pending>>
                 ELSE StopEffect(pool, FailPeers(pool))
-  /\ UNCHANGED <<st, applied, handed, lies, joins, nstat>>
+  /\ UNCHANGED <<st, applied, handed, lies, joins, nstat, nretry>>
 
 \* BlockExecutor.ApplyBlock(state, firstID, first)
 TrySyncApply ==
@@ -185,7 +196,7 @@ TrySyncApply ==
        /\ applied' = Append(applied, store[h].blk)
        /\ act' = [name |-> "Apply", h |-> h, id |-> store[h].blk.uid]
   /\ pc' = "idle"
-  /\ UNCHANGED <<sw, pool, pending, errq, store, handed, lies, joins, nstat, blamed>>
+  /\ UNCHANGED <<sw, pool, pending, errq, store, handed, lies, joins, nstat, nretry, blamed>>
 
 \* switchToConsensusTicker: pool.IsCaughtUp -> conR.SwitchToConsensus(state)
 \*   reconstructLastCommit(state): LoadSeenCommit(state.LastBlockHeight), CommitToVoteSet with state.LastValidators
@@ -193,13 +204,14 @@ Handover ==
   /\ Running /\ pc = "idle" /\ IsCaughtUp(pool)
   /\ handed' = IF st.h = 0 \/ VoteSetClean(Pows(st.h), store[st.h].seen) THEN "ok" ELSE "panic"
   /\ act' = [name |-> "Handover", h |-> st.h]
-  /\ UNCHANGED <<sw, pool, pending, errq, store, st, applied, pc, lies, joins, nstat, blamed>>
+  /\ UNCHANGED <<sw, pool, pending, errq, store, st, applied, pc, lies, joins, nstat, nretry, blamed>>
 
 Next ==
   \/ \E p \in Peers : Join(p) \/ Timeout(p) \/ ErrStop(p)
   \/ \E p \in Peers : \E s \in StatusOf(p) : Status(p, s)
   \/ \E r \in pending : \E k \in ResponseKinds(r.p, r.h) : Response(r.p, r.h, k)
   \/ MakeReq
+  \/ \E h \in ReqHeights(pool) : RetryTimer(h)
   \/ \E h \in ReqHeights(pool) : \E p \in DOMAIN pool.peers : Request(h, p)
   \/ TrySync \/ TrySyncApply \/ Handover
 
@@ -236,6 +248,9 @@ TipWhenHonest ==
 \* the pool's bookkeeping counters count what they claim to count (their consumer:
 \* makeRequestersRoutine stops creating requesters at maxPendingRequests -> ReachesTip)
 PendingCounterExact == PendingExact(pool) /\ PeerPendingExact(pool)
+\* a block is accepted for a height only from the peer currently asked for it (so that the peer punished
+\* for a bad block is the peer that sent it)
+AcceptOnlyFromAsked == BlockFromAsked(pool)
 \* structural
 PoolShape ==
   /\ \A h \in ReqHeights(pool) : h >= pool.h /\ h < pool.h + Cardinality(ReqHeights(pool))
